@@ -535,6 +535,11 @@ func run(c *core.Ctx) {
 	r := c.R
 	maxRows := 12
 	table := pred.RandTable(r, maxRows)
+	if len(table) > 0 && r.Chance(1, 4) {
+		// a row whose primary key is the zero value of its type (ids stay ascending)
+		table[0].ID = 0
+		c.Inc("tables_with_zero_key_row")
+	}
 	load(table)
 	st := pred.Style{}
 	switch c.Case % 4 {
